@@ -17,6 +17,7 @@ CONSTANTS
   StakingDelay = 2
   VotingDelay = 2
   MaxHeight = 7
+  MaxDiscards = 0
   MaxOps = 6
 VIEW viewAbs
 ACTION_CONSTRAINT GenLog
